@@ -14,7 +14,7 @@
 From Verif Require Import StropInst StropThmInst.     (* C09: the real stroppers *)
 From Verif Require Import NamespaceBase NamespaceBuildThm NamespaceTreeThm NamespacePathThm NamespaceSortThm NamespaceThm NamespaceFsThm NamespaceStropThm.
 From Coq Require Import Sorted.
-From Verif Require Import Gen_Pin_c11tree Gen_Pin_c11path Gen_Pin_c11gen Gen_C11Scan.
+From Verif Require Import Gen_Pin_c11tree Gen_Pin_c11path Gen_Pin_c11gen Gen_Pin_c11support Gen_C11Scan.
 Open Scope N_scope.
 
 (* (0) source tie.  The model is valid for the pinned shape of: build_namespace_tree, _NamespaceFactory.*, Namespace.__eq__ /
@@ -28,6 +28,20 @@ Proof. reflexivity. Qed.
 (* DSDLCodeGenerator.generate_all: one _generate_type(type, output_path) per pair yielded by get_all_types / get_all_datatypes
    (model: Namespace.c11_targets) *)
 Example C11_generate_all_shape_pinned : pin_c11gen_ok = true.
+Proof. reflexivity. Qed.
+(* Language.support_namespace, SupportGenerator.__init__ (sub-folder construction), generate_include_filepart_list *)
+Example C11_support_shape_pinned : pin_c11support_ok = true.
+Proof. reflexivity. Qed.
+
+(* fix state: the landed fixes are PART of the pinned shapes (the pre-fix shapes are no longer accepted), and that the model is
+   instantiated with the post-fix behaviour is an obligation: reverting 39680a3 / b107faf breaks these. *)
+Example C11_stem_collision_check_live : pin_c11tree_stem_check = true.
+Proof. reflexivity. Qed.
+Example C11_stem_validated_live : pin_c11path_stem_validated = true.
+Proof. reflexivity. Qed.
+(* not landed yet (design_notes/C11_support_namespace_fix.patch): once tools/translators/gen_c11.py records it as landed, the
+   validation must be in the code *)
+Example C11_support_ns_validated_live : implb pin_c11support_fix_landed pin_c11support_ns_validated = true.
 Proof. reflexivity. Qed.
 
 (* both sites that turn a type into a file path -- Namespace._add_data_type (generated) and include generation (merely
@@ -232,20 +246,22 @@ Proof. intros cfg t. repeat constructor; exact (proj1 (include_path_eq_output_pa
 Print Assumptions C11_include_path_eq_output_path.
 
 (* (11') Python does not include files: a referenced type is reached through its package (lang/py filter_imports) and module path
-   (filter_full_reference_name), whose namespace components are stropped with the identifier types found by the scan
-   (scan_py_reference_id_types: today "any"), whereas the directories are stropped with "path".  PARTIAL: the referenced package
-   chain equals the directory chain of the type file for every stropper `strop_of id_type` that agrees with id type "path" on the
-   namespace components (for the py configuration there are no per-type patterns today; the correspondence run checks
-   filter_imports / filter_full_reference_name / the generated import lines against the type file's location on names drawn
-   from every reserved list).  html/js: no statement (js has no templates; html is not in the harness's LANGS). *)
-Theorem C11_py_reference_path_partial :
-  forall (strop_of : str -> str -> str) (ns : key),
-    (forall ty x, In ty scan_py_reference_id_types -> In x ns -> strop_of ty x = strop_of ty_path x) ->
-    Forall (fun ty => map (strop_of ty) ns = map (strop_of ty_path) ns) scan_py_reference_id_types.
-Proof.
-  intros strop_of ns H. apply Forall_forall. intros ty Hty. apply map_ext_in. intros x Hx. apply H; assumption.
-Qed.
-Print Assumptions C11_py_reference_path_partial.
+   (filter_full_reference_name), whose namespace components are stropped with the identifier types found by the scan -- "any" --
+   whereas the directories are stropped with "path".  For the REAL Python stropper (C09, regenerated configuration) the two agree on
+   every DSDL name, so the referenced package chain IS the directory chain of the type file.  (html/js: no statement.) *)
+Theorem C11_py_reference_id_types_are_any :
+  Forall (fun ty => ty = ty_any) scan_py_reference_id_types /\ scan_py_reference_id_types <> [].
+Proof. split; [repeat constructor | discriminate]. Qed.
+Print Assumptions C11_py_reference_id_types_are_any.
+
+Theorem C11_py_any_path_agree : forall x, valid_ident x = true -> strop_py ty_any x = strop_py ty_path x.
+Proof. exact py_any_path_agree. Qed.
+Print Assumptions C11_py_any_path_agree.
+
+Theorem C11_py_reference_is_directory_chain : forall ns : key,
+  (forall x, In x ns -> valid_ident x = true) -> map (real_strop_any LPy) ns = map (real_strop LPy) ns.
+Proof. exact py_reference_is_directory_chain. Qed.
+Print Assumptions C11_py_reference_is_directory_chain.
 
 (* (12) the type file lies in the output folder of its namespace's Namespace object (Namespace.output_folder), i.e. next to
    the namespace file -- with stropping enabled both are outdir / strop(ns_1) / ... / strop(ns_n). *)
@@ -306,8 +322,8 @@ Print Assumptions C11_written_paths_inside_outdir.
    and a type file is never a namespace file -- for EVERY stem string, on every run of build_namespace_tree that does not raise.
    REGENERATED facts: pin_c11tree_stem_check (build_namespace_tree has the collision check; true since 39680a3) and
    pin_c11path_stem_validated (Namespace.__init__ validates the stem: design_notes/C11_stem_validate_fix.patch).  stem_guard is
-   `True /\ True` when both are true; while the validation is missing (known finding F-NS-STEM-PATH) its first half is the
-   excluded trigger: the stem is a plain file name (stem_valid).  Remaining hypotheses: stropping injectivity (names; namespaces). *)
+   `True /\ True` since both are true (obligations C11_stem_collision_check_live / C11_stem_validated_live; F-NS-STEM-COLLIDE and
+   F-NS-STEM-PATH are fixed).  Remaining hypotheses: stropping injectivity (names; namespaces). *)
 Theorem c11_targets_distinct (strop : str -> str) (es : bool) (ext stem : str) (outdir : path) :
   forall perm, (forall l, Permutation (perm l) l) ->
   forall (types : list ty) (r : str), NoDup types -> one_root r types -> types <> [] ->
@@ -343,8 +359,8 @@ Example C11_stem_collision_raises_when_checked :
 Proof. exact stem_collision_raises_when_checked. Qed.
 
 (* (14') EVERY stem string (separators, "..", absolute, empty included): on every run that does not raise, every written path is
-   outdir followed by safe components.  With the validation in the code (pin_c11path_stem_validated = true) there is NO premise
-   on the stem; while it is missing the premise is the excluded trigger stem_valid.  `valid_ext`: the extension is one pathlib
+   outdir followed by safe components.  The validation is in the code (C11_stem_validated_live), so the `if` premise is `True`: there
+   is NO premise on the stem.  `valid_ext`: the extension is one pathlib
    accepts (".x...", no separator). *)
 Theorem C11_written_paths_inside_outdir_every_stem (strop : str -> str) (es : bool) (ext stem : str) (outdir : path) :
   forall perm, (forall l, Permutation (perm l) l) ->
@@ -363,28 +379,6 @@ Proof.
 Qed.
 Print Assumptions C11_written_paths_inside_outdir_every_stem.
 
-(* WITHOUT the validation (build_checked false _ = the state of /repo while pin_c11path_stem_validated = false) the full statement
-   of (14') and of (15) (every stem) is FALSE of the faithful model: known finding F-NS-STEM-PATH (audit G-C11-1).  Witness:
-   ns.T.1.0, ns.a.U.1.0; stem "/x": nothing raises, both namespace files are the ONE path /x.h which does not start with the output
-   directory; stem "../../../e": the namespace file of ns is out/ns/../../../e.h, which resolves ABOVE out.  The validating code
-   refuses both.  [Move to History/C11_history.v when the fix lands.] *)
-Theorem C11_written_paths_inside_outdir_refuted :
-  exists (types : list ty) (abs_stem up_stem : str) (q1 q2 : path),
-    NoDup types /\ one_root w_ns types /\ types <> [] /\
-    build_checked false true same same true w_ext abs_stem w_out w_id types <> None /\
-    build_checked true true same same true w_ext abs_stem w_out w_id types = None /\
-    build_checked true true same same true w_ext up_stem w_out w_id types = None /\
-    ns_path same w_ext abs_stem w_out [w_ns] = q1 /\ ns_path same w_ext abs_stem w_out [w_ns; [97]] = q1 /\
-    In q1 (c11_targets same true w_ext abs_stem w_out true w_id types) /\ (forall rel, q1 <> w_out ++ rel) /\
-    In (w_out ++ q2) (c11_targets same true w_ext up_stem w_out true w_id types) /\
-    resolve (rev w_out) q2 = [[101; 46; 104]].
-Proof.
-  exists [w_T; w_U], w_abs_stem, w_up_stem, [[47]; [120; 46; 104]], [w_ns; [46; 46]; [46; 46]; [46; 46]; [101; 46; 104]].
-  destruct stem_path_witness as (A & B & C & D & E & F & G & H).
-  split; [repeat constructor; cbn [In]; intuition discriminate|]. split; [intros t [<-|[<-|[]]]; eexists; reflexivity|].
-  split; [discriminate|]. repeat (split; [assumption|]). split; [intros rel X; discriminate X|]. split; assumption.
-Qed.
-Print Assumptions C11_written_paths_inside_outdir_refuted.
 
 (* without namespace files only stropping injectivity on the names is needed *)
 Theorem c11_targets_distinct_types_only (strop : str -> str) (es : bool) (ext stem : str) (outdir : path) :
@@ -414,6 +408,38 @@ Theorem C11_real_written_paths_inside_outdir : forall (l : lang) (es : bool) (ex
     exists rel, q = outdir ++ rel /\ Forall safe_comp rel /\ forall st, resolve st rel = rev rel ++ st.
 Proof. exact real_targets_inside. Qed.
 Print Assumptions C11_real_written_paths_inside_outdir.
+
+(* (14'') SUPPORT FILES join the claim: SupportGenerator writes <outdir joined with every '.'-component of support_namespace>/<resource>;
+   support_targets flag outdir sn names = None iff Language.support_namespace raises (flag = does the code validate? regenerated
+   pin_c11support_ns_validated).  For EVERY support_namespace string, on every run that does not raise, every support file is outdir
+   followed by safe components.  While the validation is not in /repo (known finding F-SUPPORT-NS-PATH) the premise is the excluded
+   trigger sn_valid ("" or dot separated identifiers). *)
+Theorem C11_support_paths_inside_outdir (outdir : path) (sn : str) (sfiles : list str) :
+  forall l, support_targets pin_c11support_ns_validated outdir sn sfiles = Some l ->
+    (if pin_c11support_ns_validated then True else sn_valid sn = true) ->
+    Forall safe_comp sfiles ->
+    forall q, In q l -> exists rel, q = outdir ++ rel /\ Forall safe_comp rel /\ forall st, resolve st rel = rev rel ++ st.
+Proof. exact (support_targets_inside pin_c11support_ns_validated outdir sn sfiles). Qed.
+Print Assumptions C11_support_paths_inside_outdir.
+
+Theorem C11_support_paths_inside_outdir_either (outdir : path) (sn : str) (sfiles : list str) :
+  forall flag l, support_targets flag outdir sn sfiles = Some l ->
+    (if flag then True else sn_valid sn = true) -> Forall safe_comp sfiles ->
+    forall q, In q l -> exists rel, q = outdir ++ rel /\ Forall safe_comp rel /\ forall st, resolve st rel = rev rel ++ st.
+Proof. intros flag. exact (support_targets_inside flag outdir sn sfiles). Qed.
+Print Assumptions C11_support_paths_inside_outdir_either.
+
+(* the unvalidated code puts the support files of support_namespace "/esc" at /esc/<file>, outside the output directory; the
+   validating code refuses; a dotted identifier namespace gives outdir/n/s/<file>.  [History when the fix lands.] *)
+Theorem C11_support_paths_inside_outdir_refuted :
+  exists sn f q, support_targets false w_out sn [f] = Some [q] /\ (forall rel, q <> w_out ++ rel) /\
+                 support_targets true w_out sn [f] = None /\
+                 support_targets true w_out [110; 46; 115] [f] = Some [w_out ++ [[110]; [115]; f]].
+Proof.
+  exists w_sn_abs, [102], [[47]; [101; 115; 99]; [102]]. destruct support_ns_witness as (A & B & C).
+  split; [exact A|]. split; [intros rel X; discriminate X|]. split; assumption.
+Qed.
+Print Assumptions C11_support_paths_inside_outdir_refuted.
 
 (* (17') ... and for EVERY stem string on every run that does not raise, given the stem validation in the code *)
 Theorem C11_real_written_paths_inside_outdir_every_stem : forall (l : lang) (es : bool) (ext stem : str) (outdir : path) perm types r g chk,
